@@ -63,7 +63,7 @@ COND_POOL = [I("sel"), ["not", I("sel")], ["and", [I("sel"), I("flt")]], ["or", 
              ["or", [["and", [I("sel"), I("flt")]], ["not", I("sel2")]]],
              ["not", ["not", I("sel")]], ["and", [I("sel"), I("flt"), I("sel2")]],
              ["and", [["and", [I("sel"), I("flt")]], ["not", I("sel2")]]]]
-BROKEN_CONDS = ["sel and", "sel flt"]         # ParseException -> SigmaConditionError
+BROKEN_CONDS = ["sel and", "sel flt", "sel | count() > 1"]   # ParseException / deprecated pipe syntax -> SigmaConditionError
 
 FIELDS = ["f", "g", "h", "fieldA", "fieldC", "k"]
 VALUES = [("num", "1"), ("num", "2"), ("str", "a"), ("str", "b"), ("star", "a"), ("sw", "b"), ("ph", "x")]
@@ -222,13 +222,13 @@ def gen_history(tier, rng):
         for k in range(0, full + 2):
             seqs = list(itertools.product(alpha, repeat=k))
             if k > full:
-                seqs = rng.sample(seqs, 70 if tier == "quick" else 800)
+                seqs = rng.sample(seqs, 70 if tier == "quick" else 400)
             for hs in seqs:
-                ps = probes if k <= full else rng.sample(probes, 2)
+                ps = probes if k <= min(full, 1) else rng.sample(probes, 6 if k <= full else 2)
                 for p in ps:
                     out.append(mk_case(users, pre + list(hs) + [p]))
     # random histories up to length 8
-    nrand = 400 if tier == "quick" else 12000
+    nrand = 400 if tier == "quick" else 6000
     for i in range(nrand):
         n = rng.randint(2, 8)
         users = [rng.randrange(len(PDEFS)) for _ in range(3)]
@@ -402,8 +402,8 @@ PROPERTY = Property(
          "convert collection, convert rule} x 3 output formats x 6 pipeline definitions (state, state conditions, chained field mappings, "
          "rule failure); rules share condition strings, detection names and field names; failing conversions at load, pipeline, parse, "
          "undefined identifier, rendering, rendering inside a negated not-equals leaf. Exhaustive: all histories of <= 1 (quick) / <= 2 "
-         "(thorough) operations from a 17-operation alphabet after two backend creations in 3 sharing setups x all 14 probes, sampled at the next "
-         "length (70 / 800 histories x 2 probes per setup); 400 / 12000 random histories of 2..8 operations incl. collections with a filter document. The last operation is the probe; oracle = same probe with new class objects, new "
+         "(thorough) operations from a 17-operation alphabet after two backend creations in 3 sharing setups x all 14 probes (6 of them at length 2), sampled at the next "
+         "length (70 / 400 histories x 2 probes per setup); 400 / 6000 random histories of 2..8 operations incl. collections with a filter document. The last operation is the probe; oracle = same probe with new class objects, new "
          "pipeline objects from the same YAML and cleared caches. non-trivial = probe is a conversion preceded by at least one "
          "conversion/init; distinct by case hash",
     assumptions=["single-threaded histories only: interleavings of the class-attribute swap in not_equals_context_manager are not modelled",
